@@ -36,6 +36,7 @@ void   verif_fs_truncate(const char *name, long n);
 void   verif_fs_fail(const char *op, int times);         // make the next calls of "rename" / "open" fail
 void   verif_fs_trace_begin(void);
 int    verif_fs_crash_consistent(const char *name, const char *backup);  // number of crash points of the recorded trace without a complete state
+void   verif_text_equal(const char *a, long na, const char *b, long nb, const char *label);   // same words; differing words are numbers of equal value
 long   verif_param(const char *name, long dflt);       // tier-dependent bound chosen by the check driver (recorded in the evidence)
 void   verif_need_module(void);                        // native runs: make sure a Colvars module + stub proxy exist (cvm::error needs them); interpreter: no-op, cvm::error is modelled
 }
